@@ -376,9 +376,15 @@ fn blackbox_h2(kind: &str, k: usize, out: &mut Out) {
         "stall" => (vec![d(504)], None),
         "garbage" => (vec![d(502)], None),
         "nohost" => (vec![d(404)], None),
+        "h2c_rst_first" | "h2c_refused" | "h2c_goaway_first" | "h2c_close_first" => (vec![d(502), d(503), "abort".into()], None),
+        "h2c_rst_mid" | "h2c_close_mid" | "h2c_stall_mid" => (vec!["abort".into()], None),
+        "h2c_goaway_mid" => (vec!["relay".into()], Some(3000)),
         _ => (vec![], None),
     };
     let (got, body) = &streams[1];
+    if matches!(kind, "h2c_rst_mid" | "h2c_close_mid" | "h2c_stall_mid") && *body > 1000 {
+        out.viol("bb2-body", &format!("h2 {kind}: {body} body bytes reached the client, the backend sent 1000"));
+    }
     if got == "hang" {
         out.viol("bb2-hang", &format!("h2 {kind} {k}: no answer, no RST_STREAM and no close within the deadline"));
     } else if got == "unanswered-close" {
